@@ -14,6 +14,9 @@ type Pool struct {
 	runM      sync.Mutex
 	lazySendM sync.Mutex
 	listM     sync.Mutex
+	// stopM orders the registration of senders in sendWg against Stop:
+	// once Stop has cancelled the pool under it, no new sender registers.
+	stopM sync.RWMutex
 
 	el   core.List[Event]
 	pool core.Pool[core.Node[Event]]
